@@ -91,6 +91,20 @@ func checkC18(r *core.Run) {
 				map[string]string{"Kind": "prefix", "Const": s.prefix, "Value": v})
 		}
 	}
+	// hidden state between calls (runs first, sequentially): every prefix site x a few values, all ordered pairs
+	var items []pairItem
+	for si := range identPrefixSites {
+		s := identPrefixSites[si]
+		for _, v := range []string{"b", "", "1", "+1", "b\n", " ", "b-1_", "\u00e9"} {
+			v := v
+			items = append(items, pairItem{name: s.prefix + "\x00" + v, replay: map[string]interface{}{"Kind": "prefix", "Const": s.prefix, "Value": v},
+				judge: func() (string, string) {
+					res, p := c18Call(func() safehtml.Identifier { return s.f(v) })
+					return c18Judge(res, p, s.prefix+"-"+v)
+				}})
+		}
+	}
+	pairLayer(r, items)
 	// constant constructor: every generated constant call site
 	for _, s := range identConstSites {
 		s := s
